@@ -290,8 +290,11 @@ func (c OriginCase) Decide() (v Verdict, reason string) {
 		return Unconstrained, "pattern-port-dependent"
 	}
 	if foldEq(c.Origin.Host, c.ReqName) {
-		// same host name, different port: "host" may or may not include the port
-		return Unconstrained, "port-only-difference"
+		// same host name, different port. "The request's Host" is the Host header
+		// (name[:port]) and the property's origin grammar varies ports, so the
+		// comparison is on the whole of name[:port]: another port of the same
+		// machine is another origin and must be refused.
+		return MustRefuse, "port-only-difference"
 	}
 	if foldEq(strings.TrimSuffix(c.Origin.Host, "."), strings.TrimSuffix(c.ReqName, ".")) {
 		// the same DNS name written with and without the root label
